@@ -51,6 +51,60 @@ theorem C14_new_bounded_one_short (t v : Nat) (s : Bound) (b i : Nat) (hi : i < 
 
 example : ∃ i, i < U32MAX ∧ covers (Feature.new 1 1 (.included 3) (.excluded 9)) i := ⟨5, by decide, by decide⟩
 
+/-! ## Feature::from_str -/
+
+open RbModel.Spec.FeatureSyntax in
+/-- `from_str` accepts the documented syntax and yields the documented meaning (`Spec/FeatureSyntax.meaning`:
+    value from prefix / `=n` / `=on|off`, `[start,end)` with end exclusive and ∞ = u32::MAX), on the token level:
+    the form is rendered as `[+-]tag[index][=value]` with every number `n` written as an arbitrary digit string
+    `ds n` that is a lexed number (non-empty, digits only, decimal value `n` ≤ i32::MAX); tag = 1..4 tag bytes. -/
+theorem C14_parse (ds : Nat → Bytes) (f : Form)
+    (h1 : f.tag ≠ []) (h4 : f.tag.length ≤ 4) (ht : ∀ c ∈ f.tag, isTagChar c = true)
+    (hn : ∀ n ∈ nums f, Lexed (ds n) n) :
+    parse (render ds f) =
+      some ⟨(meaning f).tag, (meaning f).value, (meaning f).start, (meaning f).stop⟩ := by
+  obtain ⟨pre, tag, index, value⟩ := f
+  simp only at h1 h4 ht
+  -- what follows the tag is empty or starts with `[` or `=`
+  have hrest : ∀ c r, renderIndex ds index ++ renderValue ds value = c :: r → c = 91 ∨ c = 61 := by
+    intro c r e
+    cases index <;> cases value <;> simp [renderIndex, renderValue] at e <;> omega
+  have hv : ∀ c r, renderValue ds value = c :: r → c = 61 := by
+    intro c r e
+    cases value <;> simp [renderValue] at e <;> omega
+  have hne : render ds ⟨pre, tag, index, value⟩ ≠ [] := by
+    cases tag with
+    | nil => exact absurd rfl h1
+    | cons x xs => cases pre <;> simp [render, renderPrefix]
+  have hhead := parseHead_render pre tag (renderIndex ds index ++ renderValue ds value) h1 h4 ht
+    (fun c r e => by rcases hrest c r e with h | h <;> subst h <;> decide)
+    (fun c r e => by rcases hrest c r e with h | h <;> subst h <;> decide)
+  have hidx := parseIndices_render ds index (renderValue ds value) hv (by
+    intro n h
+    apply hn
+    rcases h with h | ⟨b, h⟩ | ⟨a, h⟩ <;> subst h <;> simp [nums])
+  have hval := fun d => parseValue_render ds d value (by
+    intro n h; apply hn; subst h; simp [nums])
+  unfold parse
+  have : (render ds ⟨pre, tag, index, value⟩).isEmpty = false := by
+    cases hr : render ds ⟨pre, tag, index, value⟩ with
+    | nil => exact absurd hr hne
+    | cons _ _ => rfl
+  simp only [this, Bool.false_eq_true, if_false]
+  simp only [render] at *
+  rw [hhead]
+  simp only [hidx, hval]
+  cases pre <;> cases index <;> cases value <;> rfl
+
+example : ∃ (ds : Nat → Bytes) (f : RbModel.Spec.FeatureSyntax.Form), f.tag ≠ [] ∧ f.tag.length ≤ 4 ∧
+    (∀ c ∈ f.tag, isTagChar c = true) ∧ (∀ n ∈ nums f, Lexed (ds n) n) ∧
+    parse (render ds f) = some ⟨1633774708, 2, 3, 5⟩ := by
+  refine ⟨fun n => [48 + n], ⟨.none, [97, 97, 108, 116], .range (some 3) (some 5), .num 2⟩, by decide, by decide,
+    by decide, ?_, by decide⟩
+  intro n hn
+  simp [nums] at hn
+  rcases hn with h | h | h <;> subst h <;> exact ⟨by decide, by decide, by decide, by decide⟩
+
 /-! ## set_masks -/
 
 /-- `set_masks(value, mask, start, end)`: the buffer keeps its length, glyph ids and clusters; bit `k` of glyph `i`
